@@ -43,6 +43,7 @@ type Gen struct {
 	contractOrder []string
 	lemmas     []*LemmaDecl
 	globalNames []string
+	globalNonNil map[*ssa.Global]bool
 	subCount   int
 	subIDs     map[string]int
 	specSigs   map[string]specSig
@@ -101,7 +102,7 @@ func loadProgram(repo string) (*Gen, error) {
 		srcCache: map[string][]byte{}, otherTids: map[string]int{},
 		modsets: map[*ssa.Function]*ModSet{}, contracts: map[string]*Contract{},
 		globalsDecl: map[string]*GlobalDecl{}, abstracted: map[string]int{},
-		apiRoots: map[string]bool{}, crashRoots: map[string]bool{}, engineOwned: map[string]bool{}, definitional: map[string]string{}, recoverProps: map[string]bool{}, nonnilParams: map[string]bool{}, pkgDefaults: map[string]map[string][]string{}, synth: map[string]*Contract{}, compSorts: map[string]string{}, subIDs: map[string]int{}, specSigs: map[string]specSig{},
+		apiRoots: map[string]bool{}, crashRoots: map[string]bool{}, engineOwned: map[string]bool{}, definitional: map[string]string{}, recoverProps: map[string]bool{}, nonnilParams: map[string]bool{}, pkgDefaults: map[string]map[string][]string{}, synth: map[string]*Contract{}, compSorts: map[string]string{}, subIDs: map[string]int{}, specSigs: map[string]specSig{}, globalNonNil: map[*ssa.Global]bool{},
 	}
 	for _, p := range spkgs {
 		if p != nil {
